@@ -167,8 +167,32 @@ struct VolRoundtrip : Family {
 				for (auto& in : ins) if (norm(in.path) == norm(out)) self = true;
 				auto before = disk::snapshot();
 				std::string what;
+				g_fault.touchedCount = 0;
 				Out o = callLib(plan, [&] { Archive::VolFile::CreateArchive(out, list); }, &what);
 				if (o == ErrOther) ctx.fail("C01.refuse-dup", "CreateArchive threw something that is not a std::exception");
+				// Adaptive second phase: if the implementation went through a side file (temporary, backup, lock ...), the same
+				// world is packed again with one more input living at exactly that path - "any inputs in any directories" includes it.
+				if (o == OkOut && !dup && !self && !plan.envu("adaptive", 0)) {
+					std::vector<std::string> onDisk;
+					for (auto& in : ins) onDisk.push_back(in.onDisk);
+					std::vector<std::string> side = sidePaths(out, onDisk);
+					for (int ti = 0; ti < g_fault.touchedCount; ++ti) if (normPath(g_fault.touched[ti]) == normPath(out)) { ctx.count("probe.path_trace_saw_destination"); break; }
+					if (!side.empty()) {
+						ctx.count("probe.side_file_seen");
+						const std::string& sp = side[plan.seed % side.size()];
+						size_t slash = sp.rfind('/');
+						std::string dir = slash == std::string::npos ? "-" : sp.substr(0, slash), base = slash == std::string::npos ? sp : sp.substr(slash + 1);
+						Plan derived = plan;
+						derived.setenv("adaptive", 1);
+						Line f = mkline("world", "file");
+						f.set("dir", dir).set("name", quoteToken(base)).set("cseed", hex64(mix64(plan.seed, 77))).set("len", 37 + plan.seed % 900).set("sp", 0);
+						derived.world.push_back(f);
+						ctx.event("adaptive " + sp);
+						disk::wipe();
+						execute(derived, ctx);
+						return;
+					}
+				}
 				if (dup || self) {
 					const char* cl = dup ? "C01.refuse-dup" : "C01.refuse-self";
 					if (o == OkOut) ctx.fail(cl, std::string("CreateArchive must be refused (") + (dup ? "two inputs have names equal ignoring case" : "the output path names one of the inputs") + ") but succeeded; out=" + out);
